@@ -252,7 +252,7 @@ func pipeRules(c *Ctx) {
 			if d, isDefer := fp.Decl.Body.List[0].(*ast.DeferStmt); isDefer {
 				if l, isLit := d.Call.Fun.(*ast.FuncLit); isLit {
 					for _, call := range callsIn(l.Body, false) {
-						if fullCalleeName(fp.Pkg.TypesInfo, call) == "io.Copy" && exprStr(call.Args[0]) == "io.Discard" && exprStr(call.Args[1]) == "r" {
+						if fullCalleeName(fp.Pkg.TypesInfo, call) == "io.Copy" && exprStr(call.Args[0]) == "io.Discard" && identObj(fp.Pkg.TypesInfo, call.Args[1]) != nil && identObj(fp.Pkg.TypesInfo, call.Args[1]) == readerParam(c.P.FlowOf(fp)) {
 							ok = true
 						}
 					}
